@@ -157,6 +157,11 @@ impl WriteStallController {
 				log::warn!("Write stall: {:?} ({} >= {})", reason, value, threshold);
 			}
 
+			#[cfg(surrealkv_verif)]
+			crate::verif::emit(
+				"stall.wait",
+				&[("immutables", counts.immutable_memtables as u64), ("l0", counts.l0_files as u64)],
+			);
 			// Wait
 			notified.await;
 		}
